@@ -103,10 +103,10 @@ type VNative struct{ Alts []NatAlt }
 
 type Object struct {
 	Global *ssa.Global
-	ID   int
-	Typ  types.Type // type of content
-	Name string
-	N    int // number of slots for array objects
+	ID     int
+	Typ    types.Type // type of content
+	Name   string
+	N      int // number of slots for array objects
 }
 
 func (o *Object) String() string { return fmt.Sprintf("obj%d(%s)", o.ID, o.Name) }
@@ -181,7 +181,7 @@ func isInteger(t types.Type) bool {
 type unsupportedErr struct{ msg string }
 
 func (u unsupportedErr) Error() string { return "unsupported: " + u.msg }
-func unsupported(msg string) error    { return unsupportedErr{msg} }
+func unsupported(msg string) error     { return unsupportedErr{msg} }
 
 func (ex *Exec) zero(t types.Type) Value {
 	ts := ex.ts
